@@ -298,12 +298,13 @@ func scenC04(w *vsim.World, spec *vsim.Spec) {
 		if t, ok := lastChtimesAt[s.Task]; ok && s.Op == "rename" {
 			sinceStamp = time.Since(t)
 		}
-		if s.Op == "rename" && strings.Contains(filepath.Base(s.Path), "tmp") {
+		if b2 := filepath.Base(s.Path2); s.Op == "rename" && len(b2) == 32 && isHex32(b2) {
 			// what counts in the end is the age of the timestamp the renamed file carries
 			if fi, err := os.Stat(filepath.Join(vsimfs.Base, strings.TrimPrefix(s.Path, "@"))); err == nil {
 				// (only a timestamp that was read AFTER the data had been written: one read before the copy, as
 				// seeded/C04-wave3 does, is a different defect and must not be filed under this finding)
-				if age := time.Since(fi.ModTime()); age > sinceStamp && !fi.ModTime().Before(lastCopyWrite[root]) {
+				fromTmp := strings.HasPrefix(filepath.Base(s.Path), "tmp") // (otherwise: untrash, which stamps the trashed file before it renames it)
+				if age := time.Since(fi.ModTime()); age > sinceStamp && (!fromTmp || !fi.ModTime().Before(lastCopyWrite[root])) {
 					sinceStamp = age
 				}
 			}
